@@ -29,7 +29,7 @@
     needed for any of the invariants over the reals; the theorems that mention it
     are accompanied by the stronger form without it. *)
 From Coq Require Import Reals List Bool Lra NArith.
-From Cfr.theories Require Import Num RInst Tree Strat Eval Solve Valid SolveValidProofs.
+From Cfr.theories Require Import Num RInst Tree GameWF Strat Eval Solve Valid SolveValidProofs SolveApi.
 Import ListNotations.
 Open Scope R_scope.
 
@@ -180,6 +180,35 @@ Example C05_example_instance :
                                            (@stop_at RNum (1/100))))).
 Proof. intros draw. apply C05_solve_valid_any_params. apply C05_example_hyps. Qed.
 
+(** 6. The dispatch of [Game::solve] ([theories/SolveApi.v]): the documented thread-count
+       error is returned exactly when the thread count is not one and three times it does not
+       fit in 64 bits; one thread never errors; and for every other thread count, machine
+       parallelism, schedule of the workers' atomic updates and reduction order, the call
+       returns what the single-threaded solver returns (C06, C07) — so 4 and 5 hold for every
+       thread count.  (Thread creation failing in the OS is runtime behaviour, not model.) *)
+Theorem C05_thread_overflow_iff :
+  forall (g : @game RNum) m draw p budget stop num_threads par s,
+    solve_api g m draw p budget stop num_threads par s = ApiThreadOverflow <->
+    (effective_threads num_threads par <> 1 /\ 2 ^ 64 <= 3 * effective_threads num_threads par)%N.
+Proof. exact solve_api_overflow_iff. Qed.
+
+Theorem C05_one_thread_never_errors :
+  forall (g : @game RNum) m draw p budget stop par s,
+    solve_api g m draw p budget stop 1 par s = ApiOk (@solve_single RNum g m draw p budget stop).
+Proof. exact solve_api_one_thread. Qed.
+
+Theorem C05_every_thread_count_valid :
+  forall (g : @game RNum) m draw p budget stop num_threads par s strats regs ran,
+    WFgame g -> arities_pos g -> schedules_ok s ->
+    solve_api g m draw p budget stop num_threads par s = ApiOk (strats, regs, ran) ->
+    Valid g strats /\ @solve_single RNum g m draw p budget stop = (strats, regs, ran).
+Proof.
+  intros g m draw p budget stop num_threads par s strats regs ran HWF Hpos Hs E.
+  pose proof (solve_api_valid g m draw p budget stop num_threads par s strats regs ran HWF Hs E) as E1.
+  split; [|exact E1].
+  pose proof (solve_single_valid g m draw p budget stop Hpos) as HV. rewrite E1 in HV. exact HV.
+Qed.
+
 Print Assumptions C05_regret_match_dist.
 Print Assumptions C05_avg_strat_dist.
 Print Assumptions C05_Inv_meaning.
@@ -197,3 +226,6 @@ Print Assumptions C05_bound_shape.
 Print Assumptions C05_no_early_stop.
 Print Assumptions C05_example_hyps.
 Print Assumptions C05_example_instance.
+Print Assumptions C05_thread_overflow_iff.
+Print Assumptions C05_one_thread_never_errors.
+Print Assumptions C05_every_thread_count_valid.
